@@ -79,6 +79,33 @@ def scenario(sc):
                         res['poolerror'] = True
                         res['partial'] = e.partial_results
                         res['alive_at_poolerror'] = [w.is_alive() for w in ws]
+            elif name == 'refuse_orphan':
+                # one worker, the user function refuses one (worker, input) pair: nothing is pending any more while a
+                # retry is left; the property allows PoolError here, not blocking
+                with Pool(sq) as p:
+                    w0 = p.add_worker(PersistentThreadWorker, userid=0)
+
+                    def enq(w, x):
+                        if x == 2:
+                            return False
+                        w.enqueue(x)
+                        return True
+                    res['ret'] = p.run(iter(range(4)), enqueue_fn=enq)
+            elif name == 'dead_before_run_noretry':
+                handed = []
+                with Pool(sq, retry=False) as p:
+                    ws = [p.add_worker(PersistentThreadWorker, userid=i) for i in range(3)]
+                    ws[0].terminate()
+
+                    def enq(w, x):
+                        handed.append((w.userid, x))
+                        w.enqueue(x)
+                        return True
+                    res['ret'] = p.run(iter(range(12)), enqueue_fn=enq, worker_extra_pending_inputs=sc.get('extra', 1))
+                    got = set(int(r ** 0.5) for r in res['ret'])
+                    missing = [x for x in range(12) if x not in got]
+                    res['missing'] = missing
+                    res['never_handed'] = [x for x in missing if not any(h[1] == x for h in handed)]
             else:
                 with Pool(sq) as p:
                     for i in range(2):
@@ -100,7 +127,9 @@ def scenario(sc):
         viol.append('internal error escaped Pool.run: ' + res['exception'])
     if 'ret' in res and 'expect' in res and sorted(res['ret'] or []) != res['expect']:
         viol.append(f"results {sorted(res['ret'] or [])} != one per input {res['expect']}")
-    if res.get('poolerror') and any(res.get('alive_at_poolerror', [])):
+    if res.get('never_handed'):
+        viol.append(f"retry off: inputs {res['never_handed']} are missing from the result although they were never handed to any worker")
+    if sc.get('check_poolerror', name == 'refuse_poolerror') and res.get('poolerror') and any(res.get('alive_at_poolerror', [])):
         viol.append(f"PoolError raised while workers are alive: {res.get('alive_at_poolerror')}, partial {res.get('partial')}")
     out.update(violates=bool(viol), violations=viol, observed={k: v for k, v in res.items() if k != 'calls'})
     return out
@@ -108,7 +137,7 @@ def scenario(sc):
 
 def main():
     sc = json.loads(sys.argv[1])
-    names = [sc['name']] if sc.get('name') else ['late_result', 'refuse_livelock', 'refuse_poolerror', 'plain']
+    names = [sc['name']] if sc.get('name') else ['late_result', 'refuse_livelock', 'refuse_orphan', 'dead_before_run_noretry', 'plain']
     outs = []
     for n in names:
         o = scenario(dict(sc, name=n))
